@@ -14,6 +14,7 @@ package rjson
 // ---------------------------------------------------------------- rjson.go / machine_helpers.go
 //@ func countWhitespace(data) (n)
 //@   input data
+//@   ensures n == wsrun(data, 0)
 //@   ensures 0 <= n && n <= len(data)
 //@   ensures forall(j, 0, n, ws(data[j]))
 //@   ensures n == len(data) || !ws(data[n])
@@ -23,16 +24,32 @@ package rjson
 //
 //@ func skipFloatExp(data, p, pe) (r, err)
 //@   input data
+//@   sim value init=none
 //@   requires 0 < p && p <= pe && pe == len(data)
+//@   requires @sim qis(Rq(data, p), "InValue.NumE@*")
 //@   ensures r >= p - 1 && r < pe
+//@   ensures @sim err == nil ==> qis(Rq(data, r+1), "InValue.NumExp@*") && qctx(Rq(data, r+1)) == qctx(Rq(data, p)) && sameframe(data, r+1, p)
+//@   ensures @sim err == nil ==> r+1 == len(data) || !numcont(Rq(data, r+1), data[r+1])
+//@   ensures @sim err != nil ==> !accepts(data)
 //@   loop 1 invariant startP == old(p) && startP <= p && p <= pe && pe == old(pe)
+//@   loop 1 invariant signed ==> p > startP
+//@   loop 1 invariant @sim p == startP ==> qis(Rq(data, p), "InValue.NumE@*")
+//@   loop 1 invariant @sim p == startP + 1 && signed ==> qis(Rq(data, p), "InValue.NumESign@*")
+//@   loop 1 invariant @sim p > startP && !(signed && p == startP + 1) ==> qis(Rq(data, p), "InValue.NumExp@*")
+//@   loop 1 invariant @sim qctx(Rq(data, p)) == qctx(Rq(data, startP)) && sameframe(data, p, startP)
 //@   loop 1 decreases pe - p
 //
 //@ func skipFloatDec(data, p, pe) (r, err)
 //@   input data
+//@   sim value init=none
 //@   requires 0 < p && p <= pe && pe == len(data)
+//@   requires @sim qis(Rq(data, p), "InValue.NumDot@*")
 //@   ensures r >= p - 1 && r < pe
+//@   ensures @sim err == nil ==> qis(Rq(data, r+1), "InValue.NumFrac@*", "InValue.NumExp@*") && qctx(Rq(data, r+1)) == qctx(Rq(data, p)) && sameframe(data, r+1, p)
+//@   ensures @sim err == nil ==> r+1 == len(data) || !numcont(Rq(data, r+1), data[r+1])
+//@   ensures @sim err != nil ==> !accepts(data)
 //@   loop 1 invariant old(p) < p && p <= pe && pe == old(pe)
+//@   loop 1 invariant @sim qis(Rq(data, p), "InValue.NumFrac@*") && qctx(Rq(data, p)) == qctx(Rq(data, old(p))) && sameframe(data, p, old(p))
 //@   loop 1 decreases pe - p
 //
 //@ func growBytesSliceCapacity(slice, size) (r)
@@ -55,8 +72,11 @@ package rjson
 //@ func skipValue(data, stack) (p, stack1, err)
 //@   input data
 //@   scratch stack
+//@   sim value limit=10000 pos@_again=p+1 key@_again=cs
+//@   ensures @sim [C01,C02] err == nil ==> accepts(data) && p == endof(data)
+//@   ensures @sim [C01,C02] err != nil ==> !accepts(data)
 //@   cuts st_case_*, _again
-//@   candidates 0 <= p; p < pe; 0 <= top; top <= len(stack); top >= 1; top == 0; top <= 10000
+//@   candidates err == nil; 0 <= p; p < pe; 0 <= top; top <= len(stack); top >= 1; top == 0; top <= 10000
 //@   candidates top == 0 ==> retmain(cs); top >= 1 ==> retsub(cs)
 //@   candidates top >= 1 ==> retmain(stack[0]); forall(i, 1, top, retsub(stack[i]))
 //@   measure pe - p
@@ -66,7 +86,7 @@ package rjson
 //@   input data
 //@   scratch stack
 //@   cuts st_case_*, _again
-//@   candidates 0 <= p; p < pe; 0 <= top; top <= len(stack); top >= 1; top == 0; top <= 10000
+//@   candidates err == nil; 0 <= p; p < pe; 0 <= top; top <= len(stack); top >= 1; top == 0; top <= 10000
 //@   candidates top == 0 ==> retmain(cs); top >= 1 ==> retsub(cs)
 //@   candidates top >= 1 ==> retmain(stack[0]); forall(i, 1, top, retsub(stack[i]))
 //@   measure pe - p
@@ -79,7 +99,7 @@ package rjson
 //@   candidates ghost_herr == nil
 //@   ensures [C09] ghost_herr != nil ==> err == ghost_herr
 //@   cuts st_case_*, _again
-//@   candidates 0 <= p; p < pe; 0 <= top; top <= len(stack); top >= 1; top == 0
+//@   candidates err == nil; 0 <= p; p < pe; 0 <= top; top <= len(stack); top >= 1; top == 0
 //@   candidates top == 0 ==> retmain(cs); top >= 1 ==> retsub(cs)
 //@   candidates top >= 1 ==> retmain(stack[0]); forall(i, 1, top, retsub(stack[i]))
 //@   measure pe - p
@@ -92,7 +112,7 @@ package rjson
 //@   candidates ghost_herr == nil
 //@   ensures [C09] ghost_herr != nil ==> err == ghost_herr
 //@   cuts st_case_*, _again
-//@   candidates 0 <= p; p < pe; 0 <= top; top <= len(stack); top >= 1; top == 0
+//@   candidates err == nil; 0 <= p; p < pe; 0 <= top; top <= len(stack); top >= 1; top == 0
 //@   candidates top == 0 ==> retmain(cs); top >= 1 ==> retsub(cs)
 //@   candidates top >= 1 ==> retmain(stack[0]); forall(i, 1, top, retsub(stack[i]))
 //@   measure pe - p
@@ -134,7 +154,10 @@ package rjson
 // ---------------------------------------------------------------- public wrappers
 //@ func SkipValue(data, buffer) (p, err)
 //@   input data
+//@   sim value init=none
 //@   assigns buffer.stackBuf
+//@   ensures @sim [C02,C08] err == nil ==> accepts(data) && p == endof(data)
+//@   ensures @sim [C02,C08] err != nil ==> !accepts(data)
 //@   ensures err == nil ==> 0 <= p && p <= len(data)
 //
 //@ func SkipValueFast(data, buffer) (p, err)
@@ -158,7 +181,9 @@ package rjson
 //
 //@ func Valid(data, buffer) (ok)
 //@   input data
+//@   sim value init=none
 //@   assigns buffer.stackBuf
+//@   ensures @sim [C01] ok <==> accepts(data) && wsrun(data, endof(data)) == len(data)
 // ---------------------------------------------------------------- token.go
 //@ func NextTokenType(data) (tp, p, err)
 //@   input data
